@@ -490,6 +490,10 @@ def _degrees_to_modifications(chord_degrees, target_chord_degrees):
     if degree not in degrees:
       # Add a scale degree.
       alter = target_degrees[degree]
+      if degree == 7:
+        # An added seventh is written relative to the dominant (flat) seventh,
+        # which is how _add_scale_degree reads it back.
+        alter += 1
       alter_str = abs(alter) * ('#' if alter >= 0 else 'b')
       if alter and degree > 7:
         modifications_str += '(%s%d)' % (alter_str, degree)
